@@ -398,6 +398,38 @@ func (x *Exec) Do(op string) core.Result {
 	}
 	d := e // direction of frames sent by endpoint e
 	w := x.wr[e]
+	if t[0] == "cdata" && len(t) == 6 {
+		// DATA from a CONFORMING sender: endpoint e keeps its own send windows (the initial window the
+		// other endpoint advertised - the relay forwards SETTINGS verbatim and sends none of its own -,
+		// plus the WINDOW_UPDATEs it received, minus the flow-controlled bytes it sent) and only sends a
+		// frame that fits. The relay is at rest and holds none of this sender's credit back legitimately
+		// (it acknowledges DATA on receipt), so a frame that does not fit means the sender is stalled for
+		// good: the rest of its - RFC-valid - frame script can never be sent, let alone delivered.
+		sid, ok1 := atoiU32(t[2])
+		payload, ok2 := ParseBytes(t[5])
+		pad, perr := strconv.Atoi(t[4])
+		if !ok1 || !ok2 || (t[4] != "-" && (perr != nil || pad < 0 || pad > 255)) {
+			return core.Result{Impl: "bad-op"}
+		}
+		flow := int64(len(payload))
+		if t[4] != "-" {
+			flow += int64(pad) + 1
+		}
+		sw := x.rInit[d] + x.credited[e][sid] - x.sentFlow[e][sid]
+		cw := 65535 + x.creditedConn[e] - x.sentFlowConn[e]
+		core.Count("op:cdata")
+		if flow > sw || flow > cw {
+			core.Count("oracle:conforming-sender-stalled")
+			x.dead, x.skipRest = true, true
+			r := core.Result{Impl: "stalled", SkipModel: true}
+			if x.prop == "C08" {
+				r.Sig = "c08:sender-stalled"
+				r.Fail = fmt.Sprintf("endpoint %d honours its send window and cannot send its next DATA frame on stream %d (%d flow-controlled bytes: payload %d, padding %s): stream window %d, connection window %d, although the relay is at rest and has consumed everything sent so far (flow-controlled bytes sent: stream %d / connection %d, credit returned: %d / %d) - the rest of the frame script is never delivered", e, sid, flow, len(payload), t[4], sw, cw, x.sentFlow[e][sid], x.sentFlowConn[e], x.credited[e][sid], x.creditedConn[e])
+			}
+			return r
+		}
+		t[0] = "data"
+	}
 	x.validIn, x.quirkNow = false, false
 	needEnc := false    // append enc=<n> for the model
 	needOrd := false    // append ord=<sids> for the model
